@@ -47,6 +47,7 @@ func run(b *harness.B) {
 		runTransports(b, true)
 	case 5:
 		runTamper(b)
+		runInterrupted(b)
 		runHandshakeMismatch(b)
 		if b.Batch == 5 {
 			runR2HandshakeRejection(b)
@@ -96,7 +97,7 @@ func main() {
 		},
 		MinEvals:    15000,
 		MinDistinct: 1200,
-		Require: []string{"objects_max_size_roundtrips", "objects_random_roundtrips", "size_dependent_response_evaluations", "weight_vs_bytes_measurements",
+		Require: []string{"frames_interrupted_by_a_deadline", "caller_limits_at_the_top_of_the_range", "objects_max_size_roundtrips", "objects_random_roundtrips", "size_dependent_response_evaluations", "weight_vs_bytes_measurements",
 			"max_weight_blocks_validated_by_ValidateBlock", "read_bound_cases", "errors_delivered", "caller_limit_boundary_cases",
 			"transport_messages_checked", "transport_streams_checked", "rawresponse_payloads_checked",
 			"tamper_cases_detected", "tamper_controls_untampered_ok", "handshake_mismatch_cases", "handshake_controls_ok"},
